@@ -69,6 +69,12 @@ type GoBackNConn struct {
 	quit      chan struct{}
 	closeOnce sync.Once
 	wg        sync.WaitGroup
+
+	// recvPartial holds the chunks of an incomplete message that a Recv
+	// call had already consumed when it timed out. The next Recv call
+	// continues from them. It must be guarded by recvPartialMu.
+	recvPartial   []byte
+	recvPartialMu sync.Mutex
 }
 
 // newGoBackNConn creates a GoBackNConn instance with all the members which
@@ -222,11 +228,21 @@ func (g *GoBackNConn) Recv() ([]byte, error) {
 	ticker := time.NewTimer(g.timeoutManager.GetRecvTimeout())
 	defer ticker.Stop()
 
+	// Pick up the chunks that a previous call consumed before it timed out
+	// in the middle of a message.
+	g.recvPartialMu.Lock()
+	b, g.recvPartial = g.recvPartial, nil
+	g.recvPartialMu.Unlock()
+
 	for {
 		select {
 		case <-g.quit:
 			return nil, fmt.Errorf("cannot receive, gbn exited")
 		case <-ticker.C:
+			g.recvPartialMu.Lock()
+			g.recvPartial = b
+			g.recvPartialMu.Unlock()
+
 			return nil, errRecvTimeout
 		case msg = <-g.recvDataChan:
 		}
